@@ -7,6 +7,7 @@ import (
 	"runtime"
 	"runtime/debug"
 	"strings"
+	"sync"
 	"time"
 
 	"github.com/prometheus/client_golang/prometheus"
@@ -114,6 +115,7 @@ type Remote struct {
 	ExecErr   error
 	DelayMs   int64
 	Queries   int
+	qmu       sync.Mutex
 }
 
 func NewRemote(e Eng, st *store.Store) *Remote {
@@ -124,7 +126,9 @@ func NewRemote(e Eng, st *store.Store) *Remote {
 
 func (r *Remote) NewInstantQuery(opts *promql.QueryOpts, qs string, ts time.Time) (promql.Query, error) {
 	sched.Yield("remote.new")
+	r.qmu.Lock()
 	r.Queries++
+	r.qmu.Unlock()
 	if r.CreateErr != nil {
 		return nil, r.CreateErr
 	}
@@ -137,7 +141,9 @@ func (r *Remote) NewInstantQuery(opts *promql.QueryOpts, qs string, ts time.Time
 
 func (r *Remote) NewRangeQuery(opts *promql.QueryOpts, qs string, start, end time.Time, step time.Duration) (promql.Query, error) {
 	sched.Yield("remote.new")
+	r.qmu.Lock()
 	r.Queries++
+	r.qmu.Unlock()
 	if r.CreateErr != nil {
 		return nil, r.CreateErr
 	}
@@ -255,6 +261,16 @@ type QueryRun struct {
 	Contract bool
 }
 
+func sched_yield() { sched.Yield("client.step") }
+
+// newQuery only creates the query.
+func newQuery(e *Engine, st storage.Queryable, op Op) (promql.Query, error) {
+	if op.Step == 0 {
+		return e.E.NewInstantQuery(st, nil, op.Q, ms(op.Start))
+	}
+	return e.E.NewRangeQuery(st, nil, op.Q, ms(op.Start), ms(op.End), time.Duration(op.Step)*time.Millisecond)
+}
+
 // RunQuery creates, executes and closes one query as the calling task.
 func RunQuery(r QueryRun) (o *Outcome) {
 	o = &Outcome{}
@@ -363,9 +379,8 @@ func RunQuery(r QueryRun) (o *Outcome) {
 	if r.Acct != nil {
 		o.Acct = r.Acct.Acct()
 	}
-	if !r.NoClose {
-		q.Close()
-	}
+	// The result is inspected before the query is closed: on the fallback path Close hands the
+	// result's point slices back to the reference engine's pool (its documented contract).
 	if res.Err != nil {
 		var delivered []string
 		if o.Acct != nil {
@@ -376,6 +391,9 @@ func RunQuery(r QueryRun) (o *Outcome) {
 		o.Raw = res.Value
 		o.Res = Normalize(res.Value)
 		o.WF = WellFormed(res.Value, o.ExprType, op.Step != 0, op.Start, op.End, op.Step)
+	}
+	if !r.NoClose {
+		q.Close()
 	}
 	if ct != nil {
 		ct.Finish()
